@@ -17,7 +17,8 @@ RULE = ('Hypothesis: identity = 1-6 attributes named from the shipped maps (case
 ASSUMPTIONS = ['xmlsec1 stand-in; frozen clock; values compared modulo XML line-end normalisation (CR, CRLF -> LF) and the documented whitespace trimming',
                'delivery decoded with stdlib readers (html.parser, urllib.parse) before it is handed to the SP']
 
-NAMES = ['givenName', 'sn', 'mail', 'displayName', 'eduPersonAffiliation', 'eduPersonPrincipalName', 'title', 'uid', 'cn', 'o', 'telephoneNumber', 'postalAddress']
+NAMES = ['givenName', 'sn', 'mail', 'displayName', 'eduPersonAffiliation', 'eduPersonPrincipalName', 'title', 'uid', 'cn', 'o', 'telephoneNumber', 'postalAddress',
+         'eduPersonTargetedID']       # carried as a NameID element nested inside each AttributeValue (attribute_converter special case)
 VARIANT = {'givenName': 'GivenName', 'mail': 'MAIL', 'sn': 'SN', 'displayName': 'displayname'}
 FORMATS = ['urn:oasis:names:tc:SAML:2.0:nameid-format:persistent', 'urn:oasis:names:tc:SAML:2.0:nameid-format:transient',
            'urn:oasis:names:tc:SAML:1.1:nameid-format:emailAddress', 'urn:oasis:names:tc:SAML:1.1:nameid-format:unspecified',
@@ -35,7 +36,9 @@ def xml_text():
                                                    u'\\', u'\\1', u'\\g<0>', u'\\n', u'C:\\Users\\x', u'%s', u'%(a)s', u'{0}', u'$1', u'${x}'])
     chars = st.characters(codec='utf-8', exclude_categories=('Cs',), exclude_characters=u'￾￿').filter(lambda c: ord(c) >= 32 or c in u'\t\n\r')
     return st.one_of(st.text(alphabet=chars, max_size=20), st.lists(st.one_of(hot, st.text(alphabet=chars, max_size=4)), min_size=1, max_size=6).map(u''.join),
-                     st.text(alphabet=st.sampled_from(list(u'ab <&\xe9')), min_size=200, max_size=1500))
+                     st.text(alphabet=st.sampled_from(list(u'ab <&\xe9')), min_size=200, max_size=1500),
+                     # one value that alone pushes the message over 64 KiB / 128 KiB (buffer-size boundaries of the transport encodings)
+                     st.tuples(st.sampled_from([66000, 70000, 131073]), st.sampled_from([u'a', u'ab <&', u'\xe9x'])).map(lambda t: (t[1] * (t[0] // len(t[1]) + 1))[:t[0]]))
 
 
 def case_strategy():
@@ -153,7 +156,12 @@ def run(case):
     for k, vs in identity.items():
         canon = [x for x in NAMES if x.lower() == k.lower()][0]
         exp_ava.setdefault(canon, []).extend(norm(v) for v in vs)
-    got_ava = dict((k, [v.replace('\r\n', '\n').replace('\r', '\n') for v in vs]) for k, vs in (got.ava or {}).items())   # trimming is the SP's job
+    def _txt(v):
+        # eduPersonTargetedID values come back as the nested NameID in dictionary form
+        if isinstance(v, dict):
+            v = v.get('text') or ''
+        return v.replace('\r\n', '\n').replace('\r', '\n')
+    got_ava = dict((k, [_txt(v) for v in vs]) for k, vs in (got.ava or {}).items())   # trimming is the SP's job
     if got_ava != exp_ava:
         diff = dict((k, (exp_ava.get(k), got_ava.get(k))) for k in set(exp_ava) | set(got_ava) if exp_ava.get(k) != got_ava.get(k))
         raise Violation('attributes-differ', 'asserted vs read (expected, got): %r' % (dict(list(diff.items())[:3]),))
